@@ -3,7 +3,7 @@
    exactly len+1 bytes, reads only inside its sources, and changes no other buffer. *)
 From Coq Require Import List NArith ZArith Bool Lia Arith.
 From Coq Require Import ZifyBool ZifyNat ZifyN.
-From FV Require Import Common.EventLog Str.StrModel Str.StrProofs.
+From FV Require Import Common.EventLog Str.StrModel Str.StrProofs Str.StrNumProofs Str.StrProofs2.
 Import ListNotations.
 Local Open Scope N_scope.
 
@@ -236,3 +236,431 @@ Proof.
     with (built (fill_list (vlen v + 1) []) (vtext (smem s) v) (vlen v)).
   apply built_exact; [rewrite fill_list_length; lia|lia].
 Qed.
+
+(* ---- constructors derived from (pointer, length) *)
+Lemma s_from_view_ok s v : fresh s -> valid_view (smem s) v ->
+  okM (s_from_view v) s (constructed s (vtext (smem s) v) (within v)).
+Proof. apply s_from_ptr_len_ok. Qed.
+
+Lemma s_copy_ok s x : fresh s -> str_ok (smem s) x ->
+  okM (s_copy x) s (constructed s (txt (smem s) x) (within (str_view x))).
+Proof.
+  intros Hf Hx. unfold s_copy. rewrite <- (str_vptr x), <- (str_vlen (smem s) x) by assumption.
+  apply s_from_ptr_len_ok; [assumption|apply str_view_valid; assumption].
+Qed.
+
+Lemma fresh_reads s rl : fresh s -> fresh (st_reads s rl).
+Proof. intros H. exact H. Qed.
+
+Lemma constructed_after_reads s rl text (B : range -> Prop) r s' :
+  Forall B rl -> constructed (st_reads s rl) text B r s' -> constructed s text B r s'.
+Proof.
+  intros Hrl (rl2 & -> & -> & H2). exists (rl ++ rl2). cbn [st_reads snext smem sreads sevs].
+  split; [reflexivity|]. split; [rewrite app_assoc; reflexivity|apply Forall_app; split; assumption].
+Qed.
+Lemma constructed_weaken s text (B1 B2 : range -> Prop) r s' :
+  (forall x, B1 x -> B2 x) -> constructed s text B1 r s' -> constructed s text B2 r s'.
+Proof. intros HB (rl & A & B & C). exists rl. repeat split; try assumption. eapply Forall_impl; eauto. Qed.
+
+Lemma within_shorter b o n n' r : n <= n' -> within (V b o n) r -> within (V b o n') r.
+Proof. simpl. intros H (A & B & C). repeat split; lia. Qed.
+
+Lemma s_from_cstr_ok s b o n : fresh s -> cstr_at (smem s) b o n ->
+  okM (s_from_cstr (P b o)) s (constructed s (vtext (smem s) (V b o n)) (within (V b o (n + 1)))).
+Proof.
+  intros Hf Hc. unfold s_from_cstr.
+  eapply okM_bind; [apply okM_liftR; apply strlen_ok; exact Hc|]. intros r s1 (rl & -> & Hrl & ->).
+  eapply okM_weaken; [apply (s_from_ptr_len_ok (st_reads s rl) (V b o n)); [exact Hf|apply cstr_text_valid; exact Hc]|].
+  intros x s' Hx. apply (constructed_after_reads s rl); [assumption|].
+  eapply constructed_weaken; [|exact Hx]. intros y. apply within_shorter. lia.
+Qed.
+
+Lemma s_fill_ok s n c : fresh s ->
+  okM (s_fill n c) s (constructed s (repeat c (N.to_nat n)) (fun _ => False)).
+Proof.
+  intros Hf. unfold s_fill.
+  eapply okM_bind; [apply okM_alloc|]. intros b s1 (-> & ->).
+  eapply okM_bind.
+  { eapply okM_write; [cbn [smem st_alloc]; apply mem_get_cons_eq|]. rewrite fill_list_length, repeat_length. lia. }
+  intros _ s3 ->.
+  eapply okM_bind.
+  { eapply okM_write; [cbn [smem st_setbuf st_alloc]; rewrite mem_set_cons_eq; apply mem_get_cons_eq|].
+    rewrite splice_length; rewrite fill_list_length; simpl; rewrite ?repeat_length; lia. }
+  intros _ s4 ->. apply okM_ret.
+  exists []. rewrite repeat_length. split; [f_equal; lia|]. split; [|constructor].
+  unfold st_setbuf, st_alloc. cbn [smem snext sreads sevs]. rewrite !mem_set_cons_eq, app_nil_r.
+  f_equal; [|f_equal; f_equal; f_equal; lia].
+  f_equal. f_equal.
+  change (splice (splice (fill_list (n + 1) []) (N.to_nat 0) (repeat c (N.to_nat n))) (N.to_nat n) [0])
+    with (built (fill_list (n + 1) []) (repeat c (N.to_nat n)) n).
+  apply built_exact; [rewrite fill_list_length; lia|apply repeat_length].
+Qed.
+
+(* ---- destructor *)
+Definition st_drop (s : st) (old : option nat) : st := match old with Some b => st_free s b | None => s end.
+Lemma s_destroy_ok s x : str_ok (smem s) x -> okM (s_destroy x) s (fun _ s' => s' = st_drop s (sbuf x)).
+Proof.
+  unfold s_destroy, str_ok, st_drop. destruct (sbuf x) as [b|].
+  - intros (l & Hl & _). eapply okM_free. exact Hl.
+  - intros _. apply okM_ret. reflexivity.
+Qed.
+
+(* ---- a string that replaces an old one: fresh buffer, old buffer (if any) freed afterwards *)
+Definition free_evs (old : option nat) : list ev := match old with Some b => [EFree b] | None => [] end.
+Definition mem_drop (m : mem) (old : option nat) : mem := match old with Some b => mem_del m b | None => m end.
+Definition replaced (s : st) (old : option nat) (text : list byte) (B : range -> Prop) (r : str) (s' : st) : Prop :=
+  exists rl,
+    r = mkStr (Some (snext s)) (N.of_nat (length text)) /\
+    s' = mkSt ((snext s, text ++ [0]) :: mem_drop (smem s) old) (S (snext s)) (sreads s ++ rl)
+              (sevs s ++ EAlloc (snext s) (N.of_nat (length text) + 1) :: free_evs old) /\
+    Forall B rl.
+
+Lemma replaced_ok s old text B r s' : replaced s old text B r s' ->
+  str_ok (smem s') r /\ txt (smem s') r = text.
+Proof.
+  intros (rl & -> & -> & _). cbn [smem]. split; [apply str_ok_head|apply txt_head]; rewrite Nat2N.id; reflexivity.
+Qed.
+
+Lemma owned_below s x b : fresh s -> str_ok (smem s) x -> sbuf x = Some b -> (b < snext s)%nat.
+Proof. intros Hf Hx E. unfold str_ok in Hx. rewrite E in Hx. destruct Hx as (l & Hl & _). eapply Hf; eauto. Qed.
+
+Lemma drop_after_construct s x text (B : range -> Prop) r s1 : fresh s -> str_ok (smem s) x ->
+  constructed s text B r s1 ->
+  okM (s_destroy x) s1 (fun _ s' => replaced s (sbuf x) text B r s').
+Proof.
+  intros Hf Hx (rl & -> & -> & Hrl). unfold s_destroy, replaced.
+  destruct (sbuf x) as [b|] eqn:E.
+  - pose proof (owned_below s x b Hf Hx E) as Hlt.
+    unfold str_ok in Hx. rewrite E in Hx. destruct Hx as (l & Hl & _).
+    eapply okM_weaken; [eapply okM_free; cbn [smem]; rewrite mem_get_cons_ne by lia; exact Hl|].
+    intros _ s' ->. exists rl. split; [reflexivity|]. split; [|assumption].
+    unfold st_free. cbn [smem snext sreads sevs mem_drop free_evs mem_del].
+    destruct (Nat.eqb_spec (snext s) b); [lia|]. rewrite <- app_assoc. reflexivity.
+  - apply okM_ret. exists rl. split; [reflexivity|]. split; [|assumption].
+    cbn [mem_drop free_evs]. reflexivity.
+Qed.
+
+(* operator= : the new value is a copy of src; the old buffer of dst is freed after the copy was made *)
+Lemma s_assign_ok s dst src : fresh s -> str_ok (smem s) dst -> str_ok (smem s) src ->
+  okM (s_assign dst src) s (replaced s (sbuf dst) (txt (smem s) src) (within (str_view src))).
+Proof.
+  intros Hf Hd Hs. unfold s_assign.
+  eapply okM_bind; [apply s_copy_ok; assumption|]. intros other s1 Hc.
+  eapply okM_bind; [eapply drop_after_construct; eassumption|]. intros u s2 Hr.
+  apply okM_ret. exact Hr.
+Qed.
+
+Lemma readp_range_str m x : valid_view m (str_view x) -> vlen (str_view x) = slen x ->
+  readp_range m (str_ptr x) (slen x) = (Ok (vtext m (str_view x)), view_reads (str_view x)).
+Proof. intros Hv Hl. rewrite <- (str_vptr x), <- Hl. apply readp_range_view. assumption. Qed.
+
+(* ---- resize *)
+Lemma term_split (L : list byte) n : length L = S n -> nth n L 0 = 0 -> L = firstn n L ++ [0].
+Proof.
+  intros Hl Hz. rewrite <- (firstn_skipn n L) at 1. f_equal.
+  remember (skipn n L) as t eqn:Et.
+  assert (Hlt : length t = 1%nat) by (subst t; rewrite skipn_length; lia).
+  destruct t as [|x [|y t]]; simpl in Hlt; try lia. f_equal.
+  assert (H : nth 0 (x :: nil) 0 = nth n L 0) by (rewrite Et, nth_skipn_add; f_equal; lia).
+  simpl in H. rewrite H, Hz. reflexivity.
+Qed.
+
+Lemma s_resize_ok s x n junk : fresh s -> str_ok (smem s) x ->
+  okM (s_resize x n junk) s (fun r s' => exists text,
+     length text = N.to_nat n /\
+     firstn (N.to_nat (N.min (slen x) n)) text = firstn (N.to_nat (N.min (slen x) n)) (txt (smem s) x) /\
+     replaced s (sbuf x) text (within (str_view x)) r s').
+Proof.
+  intros Hf Hx. unfold s_resize.
+  pose proof (str_view_valid _ _ Hx) as Hv. pose proof (str_vlen _ _ Hx) as Hlen.
+  pose proof (vtext_length _ _ Hv) as HL. fold (txt (smem s) x) in HL.
+  set (cl := N.min (slen x) n).
+  eapply okM_bind; [apply okM_alloc|]. intros b s1 (-> & ->).
+  destruct (valid_view_ext (smem s) (snext s) (fill_list (n + 1) junk) (str_view x) (fun l => fresh_not_in s l Hf) Hv) as [Hv1 Ht1].
+  eapply okM_bind.
+  { apply okM_liftR with (Q := fun l => l = firstn (N.to_nat cl) (txt (smem s) x)) (B := within (str_view x)).
+    cbn [smem st_alloc]. rewrite <- (str_vptr x). rewrite readp_range_prefix by (try assumption; lia).
+    eexists _, _. split; [reflexivity|]. split; [rewrite Ht1; reflexivity|].
+    eapply Forall_impl; [|apply view_reads_within]. intros r Hr. eapply sub_view_within; [| |exact Hr]; lia. }
+  intros l s2 (rl & -> & Hrl & ->).
+  assert (Hll : length (firstn (N.to_nat cl) (txt (smem s) x)) = N.to_nat cl) by (rewrite firstn_length; lia).
+  eapply okM_bind.
+  { eapply okM_write; [cbn [smem st_reads st_alloc]; apply mem_get_cons_eq|]. rewrite fill_list_length. lia. }
+  intros _ s3 ->.
+  eapply okM_bind.
+  { eapply okM_write; [cbn [smem st_setbuf st_reads st_alloc]; rewrite mem_set_cons_eq; apply mem_get_cons_eq|].
+    rewrite splice_length; rewrite fill_list_length; simpl; lia. }
+  intros _ s4 ->.
+  set (L := built (fill_list (n + 1) junk) (firstn (N.to_nat cl) (txt (smem s) x)) n).
+  assert (HLlen : length L = S (N.to_nat n)) by (apply built_length; [rewrite fill_list_length; lia|lia]).
+  assert (HLt : bat L n = 0) by (apply built_term; [rewrite fill_list_length; lia|lia]).
+  assert (HLp : firstn (N.to_nat cl) L = firstn (N.to_nat cl) (txt (smem s) x)).
+  { rewrite <- Hll at 1. apply built_prefix; [rewrite fill_list_length; lia|lia]. }
+  pose proof (term_split L (N.to_nat n) HLlen HLt) as Hsplit.
+  set (text := firstn (N.to_nat n) L) in *.
+  assert (Htl : length text = N.to_nat n) by (unfold text; rewrite firstn_length; lia).
+  eapply okM_bind.
+  { eapply (drop_after_construct s x text (within (str_view x)) (mkStr (Some (snext s)) n)); [assumption|assumption|].
+    exists rl. split; [f_equal; lia|]. split; [|assumption].
+    unfold st_setbuf, st_reads, st_alloc. cbn [smem snext sreads sevs]. rewrite !mem_set_cons_eq.
+    f_equal; [|f_equal; f_equal; f_equal; lia]. f_equal. f_equal. exact Hsplit. }
+  intros u s5 Hr. apply okM_ret. exists text. split; [assumption|]. split; [|exact Hr].
+  unfold text. rewrite firstn_firstn. replace (Nat.min (N.to_nat cl) (N.to_nat n)) with (N.to_nat cl) by lia. exact HLp.
+Qed.
+
+(* ---- operator+ / operator+= *)
+Lemma splice_splice_front {A} (fill l t : list A) : (length l + length t <= length fill)%nat ->
+  splice (splice fill 0 l) (length l) t = splice fill 0 (l ++ t).
+Proof.
+  intros H. unfold splice. cbn [firstn app Nat.add]. rewrite firstn_app, firstn_all, Nat.sub_diag. cbn [firstn].
+  rewrite app_nil_r. rewrite skipn_app, skipn_all2 by lia. cbn [app].
+  replace (length l + length t - length l)%nat with (length t) by lia.
+  rewrite skipn_skipn_add, app_length, <- app_assoc. reflexivity.
+Qed.
+
+Definition tail_ok (s : st) (tail : M (list byte)) (t : list byte) (B : range -> Prop) : Prop :=
+  forall x rd ev,
+    okM tail (mkSt ((snext s, x) :: smem s) (S (snext s)) rd ev)
+        (fun t' s2 => t' = t /\ exists rl, Forall B rl /\
+                      s2 = mkSt ((snext s, x) :: smem s) (S (snext s)) (rd ++ rl) ev).
+Lemma tail_view_ok s v : fresh s -> valid_view (smem s) v -> tail_ok s (tail_view v) (vtext (smem s) v) (within v).
+Proof.
+  intros Hf Hv x rd ev. unfold tail_view.
+  destruct (valid_view_ext (smem s) (snext s) x v (fun l => fresh_not_in s l Hf) Hv) as [Hv1 Ht1].
+  eapply okM_weaken.
+  { apply okM_liftR with (Q := fun l => l = vtext (smem s) v) (B := within v). cbn [smem].
+    rewrite readp_range_view by assumption. eexists _, _. split; [reflexivity|]. split; [assumption|apply view_reads_within]. }
+  intros t' s2 (rl & -> & Hrl & ->). split; [reflexivity|]. exists rl. split; [assumption|reflexivity].
+Qed.
+Lemma tail_char_ok s c : tail_ok s (tail_char c) [c] (fun _ => False).
+Proof.
+  intros x rd ev. apply okM_ret. split; [reflexivity|]. exists []. split; [constructor|]. rewrite app_nil_r. reflexivity.
+Qed.
+
+Definition or_own (x : str) (B : range -> Prop) (r : range) : Prop := within (str_view x) r \/ B r.
+
+Lemma s_concat_buf_ok s x tail t tn B : fresh s -> str_ok (smem s) x -> tail_ok s tail t B -> N.of_nat (length t) = tn ->
+  okM (s_concat_buf x tail tn) s (fun b s' => b = snext s /\ exists rl, Forall (or_own x B) rl /\
+     s' = mkSt ((snext s, (txt (smem s) x ++ t) ++ [0]) :: smem s) (S (snext s)) (sreads s ++ rl)
+               (sevs s ++ [EAlloc (snext s) (slen x + tn + 1)])).
+Proof.
+  intros Hf Hx Ht Htn. unfold s_concat_buf.
+  pose proof (str_view_valid _ _ Hx) as Hv. pose proof (str_vlen _ _ Hx) as Hlen.
+  pose proof (vtext_length _ _ Hv) as HL. fold (txt (smem s) x) in HL.
+  eapply okM_bind; [apply okM_alloc|]. intros b s1 (-> & ->).
+  set (fill := fill_list (slen x + tn + 1) []).
+  assert (Hfl : length fill = N.to_nat (slen x + tn + 1)) by apply fill_list_length.
+  destruct (valid_view_ext (smem s) (snext s) fill (str_view x) (fun l => fresh_not_in s l Hf) Hv) as [Hv1 Ht1].
+  eapply okM_bind.
+  { apply okM_liftR with (Q := fun l => l = txt (smem s) x) (B := within (str_view x)).
+    cbn [smem st_alloc]. fold fill. rewrite readp_range_str by assumption.
+    eexists _, _. split; [reflexivity|]. split; [exact Ht1|apply view_reads_within]. }
+  intros l s2 (rl & -> & Hrl & ->).
+  eapply okM_bind.
+  { eapply okM_write; [cbn [smem st_reads st_alloc]; apply mem_get_cons_eq|]. fold fill. lia. }
+  intros _ s3 ->.
+  unfold st_setbuf, st_reads, st_alloc. cbn [smem snext sreads sevs]. rewrite mem_set_cons_eq. fold fill.
+  eapply okM_bind; [apply Ht|]. intros t' s4 (-> & rl2 & Hrl2 & ->).
+  eapply okM_bind.
+  { eapply okM_write; [cbn [smem]; apply mem_get_cons_eq|]. rewrite splice_length; simpl; lia. }
+  intros _ s5 ->. unfold st_setbuf. cbn [smem snext sreads sevs]. rewrite mem_set_cons_eq.
+  eapply okM_bind.
+  { eapply okM_write; [cbn [smem]; apply mem_get_cons_eq|]. rewrite !splice_length; simpl; try lia. rewrite splice_length; simpl; lia. }
+  intros _ s6 ->. unfold st_setbuf. cbn [smem snext sreads sevs]. rewrite mem_set_cons_eq.
+  apply okM_ret. split; [reflexivity|]. exists (rl ++ rl2). split.
+  { apply Forall_app; split; (eapply Forall_impl; [|eassumption]); intros r Hr; [left|right]; exact Hr. }
+  rewrite app_assoc. f_equal. f_equal. f_equal.
+  replace (N.to_nat (slen x)) with (length (txt (smem s) x)) by lia.
+  cbn [N.to_nat]. rewrite splice_splice_front by lia.
+  change (splice (splice fill 0 (txt (smem s) x ++ t)) (N.to_nat (slen x + tn)) [0])
+    with (built fill (txt (smem s) x ++ t) (slen x + tn)).
+  apply built_exact; [lia|rewrite app_length; lia].
+Qed.
+
+Lemma s_append_ok s x tail t tn B : fresh s -> str_ok (smem s) x -> tail_ok s tail t B -> N.of_nat (length t) = tn ->
+  okM (s_append x tail tn) s (replaced s (sbuf x) (txt (smem s) x ++ t) (or_own x B)).
+Proof.
+  intros Hf Hx Ht Htn. unfold s_append.
+  pose proof (vtext_length _ _ (str_view_valid _ _ Hx)) as HL. fold (txt (smem s) x) in HL. rewrite (str_vlen _ _ Hx) in HL.
+  eapply okM_bind; [eapply s_concat_buf_ok; eassumption|]. intros b s1 (-> & rl & Hrl & ->).
+  eapply okM_bind.
+  { eapply (drop_after_construct s x (txt (smem s) x ++ t) (or_own x B) (mkStr (Some (snext s)) (slen x + tn))); [assumption|assumption|].
+    exists rl. rewrite app_length. split; [f_equal; lia|]. split; [|assumption].
+    f_equal. f_equal. f_equal. f_equal. lia. }
+  intros u s2 Hr. apply okM_ret. exact Hr.
+Qed.
+
+Lemma mem_del_absent m b : mem_get m b = None -> mem_del m b = m.
+Proof.
+  induction m as [|[b' l] m IH]; [reflexivity|]. cbn [mem_get mem_del].
+  destruct (Nat.eqb_spec b' b); [discriminate|]. intros H. rewrite IH by assumption. reflexivity.
+Qed.
+Lemma fresh_none s : fresh s -> mem_get (smem s) (snext s) = None.
+Proof. intros Hf. destruct (mem_get (smem s) (snext s)) eqn:E; [exfalso; eapply fresh_not_in; eauto|reflexivity]. Qed.
+
+(* operator+ : two allocations (scratch, result), the scratch buffer freed; nothing else changes *)
+Definition plus_post (s : st) (text : list byte) (B : range -> Prop) (r : str) (s' : st) : Prop :=
+  exists rl,
+    r = mkStr (Some (S (snext s))) (N.of_nat (length text)) /\
+    s' = mkSt ((S (snext s), text ++ [0]) :: smem s) (S (S (snext s))) (sreads s ++ rl)
+              (sevs s ++ [EAlloc (snext s) (N.of_nat (length text) + 1);
+                          EAlloc (S (snext s)) (N.of_nat (length text) + 1); EFree (snext s)]) /\
+    Forall (fun rg => B rg \/ within (V (snext s) 0 (N.of_nat (length text))) rg) rl.
+
+Lemma plus_post_ok s text B r s' : plus_post s text B r s' -> str_ok (smem s') r /\ txt (smem s') r = text.
+Proof.
+  intros (rl & -> & -> & _). cbn [smem]. split; [apply str_ok_head|apply txt_head]; rewrite Nat2N.id; reflexivity.
+Qed.
+
+Lemma s_plus_ok s x tail t tn B : fresh s -> str_ok (smem s) x -> tail_ok s tail t B -> N.of_nat (length t) = tn ->
+  okM (s_plus x tail tn) s (plus_post s (txt (smem s) x ++ t) (or_own x B)).
+Proof.
+  intros Hf Hx Ht Htn. unfold s_plus.
+  pose proof (vtext_length _ _ (str_view_valid _ _ Hx)) as HL. fold (txt (smem s) x) in HL. rewrite (str_vlen _ _ Hx) in HL.
+  eapply okM_bind; [eapply s_concat_buf_ok; eassumption|]. intros b s1 (-> & rl & Hrl & ->).
+  set (text := txt (smem s) x ++ t).
+  assert (Htl : N.of_nat (length text) = slen x + tn) by (unfold text; rewrite app_length; lia).
+  set (s1 := mkSt ((snext s, text ++ [0]) :: smem s) (S (snext s)) (sreads s ++ rl) (sevs s ++ [EAlloc (snext s) (slen x + tn + 1)])).
+  assert (Hf1 : fresh s1).
+  { intros b l. unfold s1. cbn [smem snext mem_get]. destruct (Nat.eqb_spec (snext s) b); [lia|]. intros H. apply Hf in H. lia. }
+  assert (Hv1 : valid_view (smem s1) (V (snext s) 0 (slen x + tn))).
+  { unfold s1. cbn [smem valid_view]. rewrite mem_get_cons_eq. eexists. split; [reflexivity|]. rewrite app_length. simpl. lia. }
+  assert (Ht1 : vtext (smem s1) (V (snext s) 0 (slen x + tn)) = text).
+  { unfold s1, vtext. cbn [smem view_text]. rewrite mem_get_cons_eq. unfold sub_list. simpl.
+    replace (N.to_nat (slen x + tn)) with (length text) by lia.
+    rewrite firstn_app, Nat.sub_diag, firstn_all. simpl. apply app_nil_r. }
+  eapply okM_bind.
+  { exact (s_from_ptr_len_ok s1 (V (snext s) 0 (slen x + tn)) Hf1 Hv1). }
+  intros r s2 (rl2 & -> & -> & Hrl2). rewrite Ht1.
+  eapply okM_bind.
+  { eapply okM_free. cbn [smem s1 snext]. rewrite mem_get_cons_ne by lia. apply mem_get_cons_eq. }
+  intros u s3 ->. apply okM_ret.
+  exists (rl ++ rl2). split; [reflexivity|]. split.
+  - unfold st_free, s1. cbn [smem snext sreads sevs mem_del].
+    destruct (Nat.eqb_spec (S (snext s)) (snext s)); [lia|]. rewrite Nat.eqb_refl.
+    rewrite (mem_del_absent _ _ (fresh_none s Hf)). rewrite <- !app_assoc. cbn [app].
+    rewrite Htl. reflexivity.
+  - apply Forall_app. split.
+    + eapply Forall_impl; [|exact Hrl]. intros rg H. left. exact H.
+    + eapply Forall_impl; [|exact Hrl2]. intros rg H. right. rewrite Htl. exact H.
+Qed.
+
+(* ---- read-only string operations *)
+Lemma s_compare_ok s a b : str_ok (smem s) a -> str_ok (smem s) b ->
+  okM (s_compare a b) s (fun z s' => z = cmp_ref (txt (smem s) a) (txt (smem s) b) /\
+     exists rl, Forall (either (str_view a) (str_view b)) rl /\ s' = st_reads s rl).
+Proof.
+  intros Ha Hb. unfold s_compare.
+  eapply okM_weaken.
+  { apply okM_liftR. rewrite <- (str_vptr b), <- (str_vlen _ _ Hb).
+    apply compare_len_ok; apply str_view_valid; assumption. }
+  intros z s' (rl & Hz & Hrl & ->). split; [exact Hz|]. exists rl. split; [assumption|reflexivity].
+Qed.
+
+Lemma s_compare_cstr_ok s a b o n : str_ok (smem s) a -> cstr_at (smem s) b o n ->
+  okM (s_compare_cstr a (P b o)) s (fun z s' => z = cmp_ref (txt (smem s) a) (vtext (smem s) (V b o n)) /\
+     exists rl, Forall (either (str_view a) (V b o (n + 1))) rl /\ s' = st_reads s rl).
+Proof.
+  intros Ha Hc. unfold s_compare_cstr.
+  eapply okM_weaken.
+  { apply okM_liftR with (Q := fun z => z = cmp_ref (txt (smem s) a) (vtext (smem s) (V b o n)))
+                         (B := either (str_view a) (V b o (n + 1))).
+    eapply okR_bind.
+    - eapply okR_weaken; [apply strlen_ok; exact Hc|intros ? E; exact E|intros r H; right; exact H].
+    - intros r ->. eapply okR_weaken.
+      + apply (compare_len_ok (smem s) (str_view a) (V b o n)); [apply str_view_valid; assumption|eapply cstr_text_valid; eassumption].
+      + intros z E. exact E.
+      + intros r [H|H]; [left; exact H|right]. eapply within_shorter; [|exact H]. lia. }
+  intros z s' (rl & Hz & Hrl & ->). split; [exact Hz|]. exists rl. split; [assumption|reflexivity].
+Qed.
+
+Lemma s_starts_with_ok s a v : str_ok (smem s) a -> valid_view (smem s) v ->
+  okM (s_starts_with a v) s (fun r s' => (r = true <-> is_prefix (vtext (smem s) v) (txt (smem s) a)) /\
+     exists rl, Forall (either (str_view a) v) rl /\ s' = st_reads s rl).
+Proof.
+  intros Ha Hv. unfold s_starts_with. eapply okM_weaken.
+  { apply okM_liftR. apply starts_with_ok; [apply str_view_valid; assumption|assumption]. }
+  intros z s' (rl & Hz & Hrl & ->). split; [exact Hz|]. exists rl. split; [assumption|reflexivity].
+Qed.
+Lemma s_ends_with_ok s a v : str_ok (smem s) a -> valid_view (smem s) v ->
+  okM (s_ends_with a v) s (fun r s' => (r = true <-> is_suffix (vtext (smem s) v) (txt (smem s) a)) /\
+     exists rl, Forall (either (str_view a) v) rl /\ s' = st_reads s rl).
+Proof.
+  intros Ha Hv. unfold s_ends_with. eapply okM_weaken.
+  { apply okM_liftR. apply ends_with_ok; [apply str_view_valid; assumption|assumption]. }
+  intros z s' (rl & Hz & Hrl & ->). split; [exact Hz|]. exists rl. split; [assumption|reflexivity].
+Qed.
+Lemma hash_str_ok s a : str_ok (smem s) a ->
+  okM (hash_str a) s (fun h s' => h = hash_ref (txt (smem s) a) 0 /\
+     exists rl, Forall (within (str_view a)) rl /\ s' = st_reads s rl).
+Proof.
+  intros Ha. unfold hash_str. eapply okM_weaken.
+  { apply okM_liftR. apply hash_view_ok. apply str_view_valid. assumption. }
+  intros z s' (rl & Hz & Hrl & ->). split; [exact Hz|]. exists rl. split; [assumption|reflexivity].
+Qed.
+
+(* ---- summaries used by Props/Properties_C15.v *)
+Lemma sub_string_reference m v from size : valid_view m v ->
+  (from <= vlen v /\ size <= vlen v - from ->
+     sub_string v from size = (Ok (sub_view v from size), []) /\
+     valid_view m (sub_view v from size) /\
+     vtext m (sub_view v from size) = sub_list (vtext m v) from size) /\
+  (~ (from <= vlen v /\ size <= vlen v - from) -> sub_string v from size = (AssertStop a_sub_string, [])).
+Proof.
+  intros Hv. split.
+  - intros [H1 H2]. split; [|split; [apply sub_view_valid|apply sub_view_text]; assumption].
+    unfold sub_string, sub_string_with, chk_safe. destruct (N.leb_spec from (vlen v)); [|lia]. destruct (N.leb_spec size (vlen v - from)); [|lia].
+    reflexivity.
+  - apply sub_string_stops.
+Qed.
+
+Lemma terminator_of_posts s text B r s' :
+  constructed s text B r s' \/ (exists old, replaced s old text B r s') \/ plus_post s text B r s' ->
+  (exists b l, sbuf r = Some b /\ mem_get (smem s') b = Some l /\
+               N.of_nat (length l) = slen r + 1 /\ bat l (slen r) = 0) /\
+  txt (smem s') r = text.
+Proof.
+  intros H.
+  assert (G : str_ok (smem s') r /\ txt (smem s') r = text /\ exists b, sbuf r = Some b).
+  { destruct H as [H|[(old & H)|H]].
+    - destruct (constructed_ok _ _ _ _ _ H) as [A C]. destruct H as (rl & E & _).
+      split; [exact A|]. split; [exact C|]. rewrite E. eexists. reflexivity.
+    - destruct (replaced_ok _ _ _ _ _ _ H) as [A C]. destruct H as (rl & E & _).
+      split; [exact A|]. split; [exact C|]. rewrite E. eexists. reflexivity.
+    - destruct (plus_post_ok _ _ _ _ _ H) as [A C]. destruct H as (rl & E & _).
+      split; [exact A|]. split; [exact C|]. rewrite E. eexists. reflexivity. }
+  destruct G as (Hok & Ht & b & Hb). split; [|exact Ht].
+  unfold str_ok in Hok. rewrite Hb in Hok. destruct Hok as (l & Hl & Hlen & Hz). exists b, l. auto.
+Qed.
+
+Lemma ctor_view_reads s v : fresh s -> valid_view (smem s) v ->
+  exists r s', s_from_view v s = (Ok r, s') /\
+    exists rl, sreads s' = sreads s ++ rl /\ Forall (within v) rl.
+Proof.
+  intros Hf Hv. destruct (s_from_view_ok s v Hf Hv) as (r & s' & E & rl & _ & Es & Hrl).
+  exists r, s'. split; [exact E|]. exists rl. split; [rewrite Es; reflexivity|assumption].
+Qed.
+
+Lemma plus_view_ok s x v : fresh s -> str_ok (smem s) x -> valid_view (smem s) v ->
+  okM (s_plus_view x v) s (plus_post s (txt (smem s) x ++ vtext (smem s) v) (or_own x (within v))).
+Proof. intros. eapply s_plus_ok; [assumption|assumption|apply tail_view_ok; assumption|apply vtext_length; assumption]. Qed.
+Lemma plus_char_ok s x c : fresh s -> str_ok (smem s) x ->
+  okM (s_plus_char x c) s (plus_post s (txt (smem s) x ++ [c]) (or_own x (fun _ => False))).
+Proof. intros. eapply s_plus_ok; [assumption|assumption|apply tail_char_ok|reflexivity]. Qed.
+Lemma append_view_ok s x v : fresh s -> str_ok (smem s) x -> valid_view (smem s) v ->
+  okM (s_append_view x v) s (replaced s (sbuf x) (txt (smem s) x ++ vtext (smem s) v) (or_own x (within v))).
+Proof. intros. eapply s_append_ok; [assumption|assumption|apply tail_view_ok; assumption|apply vtext_length; assumption]. Qed.
+Lemma append_char_ok s x c : fresh s -> str_ok (smem s) x ->
+  okM (s_append_char x c) s (replaced s (sbuf x) (txt (smem s) x ++ [c]) (or_own x (fun _ => False))) /\
+  s_push_back = s_append_char.
+Proof. intros. split; [eapply s_append_ok; [assumption|assumption|apply tail_char_ok|reflexivity]|reflexivity]. Qed.
+Lemma ctor_ptr_len_and_view_ok s v : fresh s -> valid_view (smem s) v ->
+  okM (s_from_ptr_len (vptr v) (vlen v)) s (constructed s (vtext (smem s) v) (within v)) /\
+  okM (s_from_view v) s (constructed s (vtext (smem s) v) (within v)).
+Proof. intros. split; [apply s_from_ptr_len_ok|apply s_from_view_ok]; assumption. Qed.
+Lemma string_starts_ends_with_ok s a v : str_ok (smem s) a -> valid_view (smem s) v ->
+  okM (s_starts_with a v) s (fun r s' => (r = true <-> is_prefix (vtext (smem s) v) (txt (smem s) a)) /\
+     exists rl, Forall (either (str_view a) v) rl /\ s' = st_reads s rl) /\
+  okM (s_ends_with a v) s (fun r s' => (r = true <-> is_suffix (vtext (smem s) v) (txt (smem s) a)) /\
+     exists rl, Forall (either (str_view a) v) rl /\ s' = st_reads s rl).
+Proof. intros. split; [apply s_starts_with_ok|apply s_ends_with_ok]; assumption. Qed.
